@@ -103,6 +103,7 @@ func checkC12(c *Ctx) {
 	c12OrderPaired(c, ri, accs)
 	c12WindowOrdered(c)
 	c12ReplaceOneSection(c, ri, accs)
+	c12RegisterReplaces(c, ri, accs)
 	// a registry mutex left locked on some exit (an early return inside an explicit Lock … Unlock) wedges the registry
 	{
 		var fns []*ssa.Function
